@@ -11,9 +11,11 @@ import (
 	"fmt"
 	"os"
 	"os/exec"
+	"runtime"
 	"sort"
 	"strings"
 	"sync"
+	"syscall"
 	"time"
 
 	"github.com/rogpeppe/go-internal/par"
@@ -574,6 +576,11 @@ func raceCheck() []kit.V {
 	ctx, cancel := context.WithTimeout(context.Background(), 3*time.Minute)
 	defer cancel()
 	cmd := exec.CommandContext(ctx, bin, "-racepass")
+	// the pass must not outlive this process (which may end early); the signal is
+	// tied to the thread that starts the child, so this goroutine keeps its thread
+	runtime.LockOSThread()
+	defer runtime.UnlockOSThread()
+	cmd.SysProcAttr = &syscall.SysProcAttr{Pdeathsig: syscall.SIGKILL}
 	cmd.Env = append(os.Environ(), "GORACE=halt_on_error=1 exitcode=66")
 	out, err := cmd.CombinedOutput()
 	if err == nil {
